@@ -442,3 +442,195 @@ func init() {
 		}
 	})
 }
+
+// ---------- OS primitives as effect events (C08) ----------
+
+// effectStubs are functions that acquire an OS resource.  Reaching one is an
+// "effect event"; the call returns zero values and a non-nil error so that the
+// path can continue and the harness can inspect verifEffects().
+var effectStubs = []string{
+	"os.OpenFile", "os.Open", "os.Create", "os.Remove", "os.RemoveAll", "os.Rename", "os.Mkdir", "os.MkdirAll",
+	"os.MkdirTemp", "os.CreateTemp", "os.ReadFile", "os.WriteFile", "os.ReadDir", "os.Stat", "os.Lstat", "os.Chdir",
+	"os.Setenv", "os.Unsetenv", "os.StartProcess", "os.Pipe", "os.Getwd", "os.Hostname", "os.Executable", "os.Truncate", "os.Chmod", "os.Symlink", "os.Link",
+	"io/ioutil.TempFile", "io/ioutil.TempDir", "io/ioutil.ReadFile", "io/ioutil.WriteFile", "io/ioutil.ReadDir",
+	"(*os/exec.Cmd).Start", "(*os/exec.Cmd).Run", "(*os/exec.Cmd).Output", "(*os/exec.Cmd).CombinedOutput",
+	"plugin.Open", "net.Dial", "net.Listen", "net.DialTimeout",
+}
+
+func init() {
+	extraIntrinsics = append(extraIntrinsics, func(in *Interp) {
+		for _, name := range effectStubs {
+			name := name
+			in.intr[name] = func(in *Interp, fr *Frame, a []V) V {
+				in.effect("os:" + name)
+				fn := in.lastCallee
+				if fn == nil {
+					return nil
+				}
+				res := fn.Signature.Results()
+				mk := func(t types.Type) V {
+					if types.Identical(t, types.Universe.Lookup("error").Type()) {
+						return in.newError("verif: OS primitive " + name + " not executed")
+					}
+					return in.zero(t)
+				}
+				switch res.Len() {
+				case 0:
+					return nil
+				case 1:
+					return mk(res.At(0).Type())
+				}
+				tv := make(TupleV, res.Len())
+				for i := range tv {
+					tv[i] = mk(res.At(i).Type())
+				}
+				return tv
+			}
+		}
+	})
+}
+
+// InitOSFiles gives os.Stdin/Stdout/Stderr non-nil *os.File values (package os
+// is not initialised) and models I/O on already-open files as opaque no-ops.
+func (in *Interp) InitOSFiles() {
+	p := in.Prog.ImportedPackage("os")
+	if p == nil {
+		return
+	}
+	fileT := p.Type("File")
+	if fileT == nil {
+		return
+	}
+	for i, n := range []string{"Stdin", "Stdout", "Stderr"} {
+		g, ok := p.Members[n].(*ssa.Global)
+		if !ok {
+			continue
+		}
+		fc := in.newCell(fileT.Type(), "os."+n)
+		// File{ *file }: allocate the inner struct and set its name
+		if len(fc.Kids) == 1 {
+			if pt, ok := fc.Kids[0].T.(*types.Pointer); ok {
+				inner := in.newCell(pt.Elem(), "os.file")
+				if st, ok := pt.Elem().Underlying().(*types.Struct); ok {
+					for k := 0; k < st.NumFields(); k++ {
+						if st.Field(k).Name() == "name" {
+							in.writeCell(inner.Kids[k], StrV{S: "/dev/std" + []string{"in", "out", "err"}[i]})
+						}
+					}
+				}
+				in.writeCell(fc.Kids[0], Ptr{C: inner})
+			}
+		}
+		in.writeCell(in.globalCell(g), Ptr{C: fc})
+	}
+}
+
+func init() {
+	extraIntrinsics = append(extraIntrinsics, func(in *Interp) {
+		r := in.intr
+		wr := func(in *Interp, fr *Frame, a []V) V {
+			n := in.lenOf(a[1])
+			return TupleV{BVConst(uint64(n), 64), IfaceV{}}
+		}
+		r["(*os.File).Write"] = wr
+		r["(*os.File).WriteString"] = wr
+		r["(*os.File).Read"] = func(in *Interp, fr *Frame, a []V) V {
+			// end of file on every read: content of external files is not modelled
+			eof := in.Prog.ImportedPackage("io").Var("EOF")
+			return TupleV{BVConst(0, 64), in.readCell(in.globalCell(eof))}
+		}
+		for _, n := range []string{"(*os.File).Close", "(*os.File).Sync"} {
+			r[n] = func(in *Interp, fr *Frame, a []V) V { return IfaceV{} }
+		}
+		r["(*os.File).Fd"] = func(in *Interp, fr *Frame, a []V) V { return BVConst(3, 64) }
+		r["(*os.File).Seek"] = func(in *Interp, fr *Frame, a []V) V { return TupleV{BVConst(0, 64), IfaceV{}} }
+	})
+}
+
+// ---------- golua's linknamed hash functions ----------
+//
+// runtime.int64Hash / runtime.efaceHash are Go-runtime internals (seeded per
+// process).  Default model: a fixed xor-shift mixing function (cheap for the
+// solver, collisions modulo the table mask are still the solver's choice of
+// keys).  With HashUF set they are uninterpreted functions, so that results
+// hold for every hash function.
+
+func hashMix(x *Term) *Term {
+	a := BV2(OpBVLshr, x, BVConst(7, 64))
+	b := BV2(OpBVLshr, x, BVConst(19, 64))
+	return BV2(OpBVXor, x, BV2(OpBVXor, a, b))
+}
+
+func init() {
+	extraIntrinsics = append(extraIntrinsics, func(in *Interp) {
+		r := in.intr
+		r[RepoModule+"/runtime.goRuntimeInt64Hash"] = func(in *Interp, fr *Frame, a []V) V {
+			x := a[0].(*Term)
+			if in.HashUF {
+				return UF("H64", BVSort(64), x)
+			}
+			return hashMix(x)
+		}
+		r[RepoModule+"/runtime.goRuntimeEfaceHash"] = func(in *Interp, fr *Frame, a []V) V {
+			iv := a[0].(IfaceV)
+			if iv.T == nil {
+				return BVConst(0x9e3779b97f4a7c15, 64)
+			}
+			tid := BVConst(in.typeID(iv.T)*0x100000001b3, 64)
+			switch x := iv.V.(type) {
+			case *Term:
+				v := x
+				switch {
+				case v.S.K == SBool:
+					v = Ite(v, BVConst(1, 64), BVConst(0, 64))
+				case v.S.K != SBV:
+					v = in.fpToBits(v)
+				}
+				if v.S.W < 64 {
+					v = Zext(v, 64)
+				}
+				if in.HashUF {
+					return UF("Hscalar", BVSort(64), BV2(OpBVXor, tid, v))
+				}
+				return hashMix(BV2(OpBVXor, tid, v))
+			case StrV:
+				h := BVConst(0xcbf29ce484222325, 64)
+				for i := 0; i < x.Len(); i++ {
+					h = BV2(OpBVXor, BV2(OpBVMul, h, BVConst(31, 64)), Zext(x.At(i), 64))
+				}
+				h = BV2(OpBVXor, h, BVConst(uint64(x.Len())<<56, 64))
+				if in.HashUF {
+					return UF("Hstr", BVSort(64), h)
+				}
+				return hashMix(h)
+			case Ptr:
+				id := uint64(0)
+				if x.C != nil {
+					id = uint64(x.C.ID)
+				}
+				if in.HashUF {
+					return UF("Hobj", BVSort(64), BVConst(id, 64))
+				}
+				return hashMix(BVConst(id*0x9e3779b1+in.typeID(iv.T), 64))
+			case SliceV:
+				id := uint64(0)
+				if x.Arr != nil {
+					id = uint64(x.Arr.ID)
+				}
+				return hashMix(BVConst(id*0x9e3779b1+in.typeID(iv.T), 64))
+			case StructV:
+				k, ok := concKey(x)
+				if !ok {
+					in.unsupported("hash of symbolic struct")
+				}
+				h := uint64(0xcbf29ce484222325)
+				for i := 0; i < len(k); i++ {
+					h = (h ^ uint64(k[i])) * 0x100000001b3
+				}
+				return BVConst(h, 64)
+			}
+			in.unsupported("efaceHash of %T", iv.V)
+			return nil
+		}
+	})
+}
